@@ -342,7 +342,7 @@ def _words(rng, sigma, k=4):
 
 
 def _simple_dfa(rng, sigma, n_max=4):
-    a = genfa.abstract_dfa(rng, 1, n_max, len(sigma), len(sigma), unreachable_max=1)
+    a = genfa.abstract_dfa(rng, 1, n_max, len(sigma), len(sigma), unreachable_max=2)
     new = names.fresh_state_names(rng, len(a['Q']), special_p=0.05, style=rng.choice(['rand', 'q', 's']))
     qm = dict(zip(a['Q'], new))
     sm = dict(zip('abc', sigma))
@@ -591,7 +591,13 @@ def gen_session(rng, n_calls):
     for spec in made:
         if spec['kind'] in ('nfa', 'pda') and rng.random() < 0.2:
             spec['alias'] = True
-    names_by_args = sorted(OPS)
+    # operations whose result is computed by iterating sets get three times the weight of simple accessors
+    heavy = ('dfa_minimize', 'dfa_quotient', 'dfa_hopfcroft', 'dfa_to_regexp', 'nfa_to_dfa', 'regexp_to_nfa', 'cfg_to_chomsky',
+             'cfg_eliminate_unit_rules', 'cfg_make_rules_of_length_two', 'cfg_eliminate_terminals', 'cfg_remove_epsilon_rules', 'cfg_apply_chomsky',
+             'dfa_no_extend', 'dfa_no_prefix', 'dfa_reverse', 'dfa_remove_unreachable_states', 'dfa_union', 'dfa_intersection',
+             'pda_accepts_word', 'pda_words_up_to_n', 'pda_to_cfg', 'pda_to_push_pop', 'nfa_union', 'nfa_concatenation', 'nfa_repetition',
+             'dfa_words_up_to_n', 'nfa_words_up_to_n', 'cfg_words_up_to_n', 'regexp_words_up_to_n', 'dfa_isomorphic1')
+    names_by_args = sorted(OPS) + [n for n in sorted(OPS) if n in heavy] * 2
     if special_dfa is not None:
         # make sure the unusual object is actually enumerated
         steps.append({'op': 'dfa_words_up_to_n', 'args': [special_dfa], 'params': {'n': rng.randint(4, 5)}})   # two sequences of 3 symbols spell the same word
